@@ -112,7 +112,7 @@ def build_chunk(rng: random.Random, schema, rows, missing_enc="null"):
     hidden_len = {i: rng.randint(1, 3) for i, r in enumerate(rows) if r is None}
     # the lists under a missing row may themselves be NULL and still span elements of the value buffers (what
     # StructArray.flatten() of a hidden layout gives back): Arrow validates such arrays and calls them equal to the compact ones
-    null_spans = missing_enc == "hidden" and rng.random() < 0.4
+    null_spans = missing_enc == "hidden_null" or (missing_enc == "hidden" and rng.random() < 0.4)
     mask = pa.array([r is None for r in rows], type=pa.bool_())
     for name, t in schema:
         lists = []
@@ -240,6 +240,8 @@ def make_layout(rng: random.Random, schema, rows, recipe: str) -> pa.ChunkedArra
         return pa.chunked_array([build_chunk(rng, schema, rows, "empty")], type=st)
     if recipe == "missing_hidden":
         return pa.chunked_array([build_chunk(rng, schema, rows, "hidden")], type=st)
+    if recipe == "missing_hidden_null":      # (not in LAYOUTS: asked for by name) the lists under the missing rows are NULL and span elements
+        return pa.chunked_array([build_chunk(rng, schema, rows, "hidden_null")], type=st)
     if recipe == "pickle":
         from nested_pandas.series.ext_array import NestedExtensionArray
 
